@@ -19,8 +19,18 @@ CHECKS = {
             "Every schedule within the bound of reader vs overwrite/Del/Clear/eviction/expiry scenarios on the real cache; oracle: no Get starting after OnExit(v) returns v.", "§4 C02", SCHED_NOTE),
     "C04": ("sched", "model_checking", "stateless model checking of the implementation: preemption-bounded DFS under a controlled scheduler (racy pairs) + explicit-state search over histories with every applier lag",
             "Exactly-once OnExit accounting checked on every explored execution ending in Close.", "§4 C04", SCHED_NOTE),
+    "C08": ("sched", "model_checking", "stateless model checking of the implementation: preemption-bounded DFS under a controlled scheduler, run twice - normal build (panic/deadlock/livelock oracle) and -race build with scheduler hand-offs invisible to the race detector",
+            "Every unordered pair of the 12 API operation kinds, on conflicting keys with resident and pending entries: every schedule within the bound is executed; the race detector judges every explored schedule of the race build.", "§4 C08", SCHED_NOTE + " The Go race detector (ThreadSanitizer happens-before) is trusted."),
+    "C10": ("seq", "model_checking", "explicit-state BFS over operation histories on the real z.Tree (exact page-bytes state key) against a map reference model",
+            "Every operation sequence over adversarial key alphabets up to the depth bound, from every reachable state, at the smallest page sizes (splits after 4 keys) and up; long fill/delete histories at larger page sizes.", "§4 C10", SEQ_NOTE),
     "C11": ("seq", "model_checking", "explicit-state BFS over operation histories on the real z.Buffer against a byte-slice reference model",
             "All operation histories up to the depth bound from every reachable state, for every buffer configuration, plus exhaustive sort families around the 1024-slice chunking.", "§4 C11", SEQ_NOTE),
+    "C16": ("seq", "model_checking", "explicit-state BFS over histories with a Reopen event enabled in every state, on real file-backed trees; differential oracle before/after reopen",
+            "Every clean-close point of every bounded history (including after DeleteBelow recycled pages) is closed, reopened and compared; the search continues from the reopened tree under the C10 oracle.", "§4 C16", SEQ_NOTE),
+    "C18": ("seq", "model_checking", "explicit-state search to fixpoint over the real cmSketch / tinyLFU (counters saturate, so the reachable space is finite) + complete byte-space enumeration of the counter row",
+            "All reachable sketch states for small tables, every counter byte value, every table size formula input up to 1025 and around powers of two.", "§4 C18", SEQ_NOTE),
+    "C19": ("seq", "model_checking", "explicit-state BFS over Add/AddIfNotHas/Clear/JSON-round-trip sequences on the real Bloom filter against a set reference model",
+            "All event sequences to depth 5 (7 thorough) over 48 parameterisations and 16 extreme hashes.", "§4 C19", SEQ_NOTE),
     "C20": ("seq", "exploration", "exhaustive input enumeration (every length x first-match position x tail-memory pattern)",
             "The kernel only compares keys with k, so {<k, >=k} patterns are a complete abstraction of inputs; all of them up to length 512 (1024 thorough) are run against the reference, including every pattern of the memory past the slice.", "§4 C20", SEQ_NOTE),
 }
